@@ -11,6 +11,8 @@ THEOREMS = {
         "Dawgs.C01.Props.tr3_some", "Dawgs.C01.Props.tr_sound_S2c", "Dawgs.C01.Props.c01_partial_S3", "Dawgs.C01.Props.ofCyChain_sound",
         "Dawgs.C01.Props.tr4_some", "Dawgs.C01.Props.tr_sound_S1c", "Dawgs.C01.Props.c01_partial_S4", "Dawgs.C01.Props.ofCyCount1_sound",
         "Dawgs.C01.Props.tr5_some", "Dawgs.C01.Props.tr_sound_S2n", "Dawgs.C01.Props.c01_partial_S5", "Dawgs.C01.Props.ofCyCount2_sound",
+        "Dawgs.C01.Props.ofCyLimit2_sound", "Dawgs.C01.Props.tr6_some", "Dawgs.C01.Props.limit_refused_iff", "Dawgs.C01.Props.tr_sound_S2L",
+        "Dawgs.C01.Props.tr_noerr_S2L", "Dawgs.C01.Props.tr_sound_S2L_forced",
     ],
 }
 
@@ -21,7 +23,7 @@ def model_input(op, impl):
     m = _OK.match(impl)
     if not m:
         return "skip"
-    nums = op.rsplit('"', 1)[1].split()
+    nums = [t for t in op.rsplit('"', 1)[1].split() if not t.startswith("p=")]   # p=<hex>: query parameters, read by the harness
     if len(nums) != 4:
         return "skip"
     return "sem %s %s %s %s %s %s %s %s" % (nums[0], nums[1], nums[2], nums[3], m.group(1), m.group(2), m.group(3), m.group(4))
@@ -187,10 +189,19 @@ FRAGMENT_PROVED = ("stage S1 (all graphs with unique node ids / injective kind m
                    "the rows agree as a BAG (List.Perm), not as a list. "
                    "stage S2n (same graphs, join orders and pruning as S2b): MATCH (a[:K...])-[r[:T|...]]->(b[:K...]) [WHERE single-variable conjuncts] RETURN count(x) [AS c], x one "
                    "of a, r, b — one row, the number of matches. "
+                   "stage S2L (same graphs, join orders and pruning as S2b; the LIMIT written on the statement only, or — limit pushdown — on the statement AND on the hop frame): "
+                   "an S2b query followed by LIMIT k (integer literal >= 0), no ORDER BY, no SKIP. openCypher does not fix WHICH k rows such a query returns, and the reference "
+                   "evaluator refuses it (`nondeterministic-limit-inside-ties`) exactly when 0 < k < number of rows of the base query (limit_refused_iff); the theorem is therefore "
+                   "stated against the BASE query (the query without LIMIT): the statement's rows are a SUB-BAG of the base query's rows of exactly min(k, number of base rows) rows, "
+                   "and they are the first k rows of a list that depends on the join order only; when the reference semantics does define the LIMIT query (k = 0 or k >= number of "
+                   "base rows) the rows agree with it as a bag (tr_sound_S2L_forced). "
                    "stage S2c (same graphs; both join orders of the first hop): chains of TWO or THREE directed fixed hops "
-                   "MATCH (n0[:K...])-[e0[:T|...]]->(n1[:K...])-[e1[:T|...]]->(n2[:K...]) [-[e2[:T|...]]->(n3[:K...])] RETURN items, no WHERE / ORDER BY / SKIP / LIMIT / DISTINCT, "
-                   "all variable names distinct, every variable read by some item, items ::= x | id(x) | x.k [AS alias]; bag agreement. openCypher's relationship uniqueness within the "
-                   "MATCH is part of the reference semantics; the emitted `e_i.id != (s.e_j).id` guards are proved to match it exactly for these shapes")
+                   "MATCH (n0[:K...])-[e0[:T|...]]->(n1[:K...])-[e1[:T|...]]->(n2[:K...]) [-[e2[:T|...]]->(n3[:K...])] [WHERE c1 AND ... AND cn] RETURN items, no ORDER BY / SKIP / LIMIT / DISTINCT, "
+                   "all variable names distinct, every variable read by some item, items ::= x | id(x) | x.k [AS alias]; every conjunct ci an S1 predicate over exactly ONE pattern variable "
+                   "(node or relationship; conjuncts reading two variables are outside); bag agreement. openCypher's relationship uniqueness within the "
+                   "MATCH is part of the reference semantics; the emitted `e_i.id != (s.e_j).id` guards are proved to match it exactly for these shapes. The statement emits every conjunct in the frame "
+                   "that introduces its variable (n0, e0, n1: frame s0 as in S2b; n_(i+1): ON condition of its join in frame s_i, before the kinds; e_i: WHERE of frame s_i, before kind and guards) — "
+                   "proved to give exactly the matches Cypher keeps when it evaluates the WHERE after the whole pattern (chainMatchesSql_eq)")
 FRAGMENT_SEARCHED = ("every query of the corpora / generator the REAL translator translates and both Lean evaluators model: relationships (directed, undirected, "
                      "chains, multi-pattern, multi-MATCH), WITH pipelines, UNWIND, aggregation (count/collect/sum/min/max/avg), DISTINCT, ORDER BY on properties, "
                      "variable-length expansion, paths, OPTIONAL MATCH, quantifiers, pattern predicates, string / list / arithmetic operators; per-construct unmodelled counts are in this record")
@@ -202,9 +213,9 @@ SPEC = {
     "fallback_level": "other",
     "lean_modules": ["Dawgs.Props.C01"],
     "theorems_by_module": THEOREMS,
-    "gate_modules": ["Dawgs.Model.Graph", "Dawgs.Model.Cypher", "Dawgs.Model.CyEval", "Dawgs.Model.SqlVal", "Dawgs.Model.SqlEval", "Dawgs.Model.C01", "Dawgs.Model.C01S2", "Dawgs.Model.C01Chain", "Dawgs.Model.C01Count", "Dawgs.Model.C02",
+    "gate_modules": ["Dawgs.Model.Graph", "Dawgs.Model.Cypher", "Dawgs.Model.CyEval", "Dawgs.Model.SqlVal", "Dawgs.Model.SqlEval", "Dawgs.Model.C01", "Dawgs.Model.C01S2", "Dawgs.Model.C01Chain", "Dawgs.Model.C01Count", "Dawgs.Model.C01Limit", "Dawgs.Model.C02",
                      "Dawgs.Proofs.C01", "Dawgs.Proofs.C01Sql", "Dawgs.Proofs.C01Pred", "Dawgs.Proofs.C01Query", "Dawgs.Proofs.C01Cy", "Dawgs.Proofs.C01Sound",
-                     "Dawgs.Proofs.C01Frag", "Dawgs.Proofs.C01At", "Dawgs.Proofs.C01S2Sql", "Dawgs.Proofs.C01S2Cy", "Dawgs.Proofs.C01S2Sound", "Dawgs.Proofs.C01ChainSql", "Dawgs.Proofs.C01ChainCy", "Dawgs.Proofs.C01ChainSound", "Dawgs.Proofs.C02", "Dawgs.Proofs.C01Count", "Dawgs.Proofs.C01CountHop", "Dawgs.Props.C01"],
+                     "Dawgs.Proofs.C01Frag", "Dawgs.Proofs.C01At", "Dawgs.Proofs.C01S2Sql", "Dawgs.Proofs.C01S2Cy", "Dawgs.Proofs.C01S2Sound", "Dawgs.Proofs.C01ChainSql", "Dawgs.Proofs.C01ChainCy", "Dawgs.Proofs.C01ChainSound", "Dawgs.Proofs.C02", "Dawgs.Proofs.C01Count", "Dawgs.Proofs.C01CountHop", "Dawgs.Proofs.C01Limit", "Dawgs.Props.C01"],
     "suites": [{"name": "c01tie", "model_suite": "c01tie", "model_input": model_input, "impl_view": impl_view, "model_view": model_view,
                 "judge": tie_judge, "keep_prefix": 1, "thorough_seeds": 1},
                {"name": "c01", "model_suite": "c01sem", "model_input": model_input, "impl_view": impl_view, "model_view": model_view,
@@ -214,12 +225,12 @@ SPEC = {
     "extra_coverage": extra_coverage,
     "panic_is_violation": False,
     "rule": "tie 1 (suite c01tie): structured random queries of the PROVED fragment S1 (kinds x predicates x items x order/skip/limit) and S2b (kinds of a / r / b x 0-4 WHERE conjuncts, "
-            "each an S1 predicate of depth <= 2 over one of a, r, b x 1-4 items over any of a, r, b) S2c (chains of 2-3 hops x kinds x items over all variables) S1c (count(n) over a node pattern x kinds x optional predicate x alias) and S2n (count(x) over a hop x kinds x 0-3 conjuncts x alias; splitmix64(VERIF_SEED)) are translated by the REAL "
+            "each an S1 predicate of depth <= 2 over one of a, r, b x 1-4 items over any of a, r, b) S2c (chains of 2-3 hops x kinds x items over all variables, without WHERE and — family s2cw — with 1-4 WHERE conjuncts, each an S1 predicate of depth <= 2 over one node or relationship variable) S1c (count(n) over a node pattern x kinds x optional predicate x alias), S2n (count(x) over a hop x kinds x 0-3 conjuncts x alias) and S2L (an S2b query + LIMIT k, k in {0,1,2,3,5,50}, no ORDER BY: the real statement must be the model statement WITH the LIMIT pushed into the hop frame; prediction checked against the base query: sub-bag of exactly min(k, n) rows; splitmix64(VERIF_SEED)) are translated by the REAL "
             "translator; the reflection S-expression of Result.Statement must be EQUAL to the model translator's statement (and carry no parameters) — for a hop the model has TWO "
             "statements, one per join order (`S2.Query.trWith km false / true`): which one the translator picks is a selectivity heuristic over its Go syntax tree that scores only "
             "pointer-typed nodes, which the reflection rendering does not determine, so the direction is NOT modelled; the theorems hold for both and the tie accepts either (the "
             "record counts how often the model's own approximation `flipOpt` names the order taken) — and on every generated graph satisfying "
-            "the stage's hypothesis (GraphOK for S1 / S1c, GraphOK2 for S2b / S2c / S2n) the two evaluators must agree. tie 2 (suite c01, SEARCH not proof): FOCUSED FAMILIES (harness/focused.go: variable-length step + >= 2 fixed hops with every subset of the suffix nodes already bound, "
+            "the stage's hypothesis (GraphOK for S1 / S1c, GraphOK2 for S2b / S2c / S2n / S2L) the two evaluators must agree (S2L: the statement's rows must be a sub-bag of min(k, n) rows of the base query's rows). tie 2 (suite c01, SEARCH not proof): the REFERENCE reading of a query does not inherit what the DAWGS frontend listener makes of the text where that can be avoided: the direction of every ORDER BY item is read from the TEXT (harness/sortdir.go: the generated parser alone, an oC_SortItem is descending iff a keyword child spells DESC / DESCENDING in any letter case) and overrides SortItem.Ascending in the S-expression given to Cy.eval, while the translator under test gets the frontend's model unchanged; generators spell the direction in every grammar form (asc / ASCENDING / desc / DESCENDING / mixed case / default). Pattern property maps given as a PARAMETER (`(a $p)`, `-[r $p]->`): the op line carries the parameter values (p=<hex JSON>), the translator gets them, the reference reads the literal map they stand for, and Sql.eval evaluates `properties @> @pi0::jsonb` with the jsonb value of Result.Parameters (jsonb containment modelled for an object on the right whose values are scalars; other operand forms are `unmodelled`). FOCUSED FAMILIES (harness/focused.go: every spelling of the sort direction in RETURN and WITH, single and mixed keys, with SKIP / LIMIT (family sort-keyword); a parameter property map at every element position of a hop, a chain and several MATCH clauses, next to a second parameter map or a literal map (family param-map: every OTHER element must stay unconstrained); variable-length step + >= 2 fixed hops with every subset of the suffix nodes already bound, "
             "aggregate-only RETURN incl. collect / size(collect()) with LIMIT and no ORDER BY — one output row, so the LIMIT is deterministic —, aggregate traversal counts, collect membership; a NAMED PATH bound by a MATCH whose own WHERE holds a pattern predicate, over patterns the optimiser reverses, the path / "
             "nodes(p) / relationships(p) / length(p) observed directly and through WITH (path VALUES are compared as ordered node and relationship lists; a result that is the Cypher "
             "result with every path reversed is the symptom class `path-in-reverse-order`, keyed by the enabling query shape); string predicates and equalities whose literal contains "
@@ -242,17 +253,21 @@ SPEC = {
                      "relationship uniqueness per MATCH, null ordering); deviations of the emitted SQL are expressed as named switches only to EXPLAIN a difference, never to accept it",
                      "encode : KindMap -> Graph -> Db (Model/Graph.lean) is the storage layout of schema_up.sql (node / edge / kind tables, graph_id 0)",
                      "harness/sexp.go reflection rendering of the pgsql AST and of the parsed Cypher model, Driver/SqlSexp.lean and Driver/ReadCy.lean readers (unknown node -> unmodelled)",
+                     "the parsed Cypher model comes from the DAWGS frontend (the code under test): where the reference can read the TEXT instead it does — ORDER BY directions (harness/sortdir.go, generated parser "
+                     "only); everything else of the reading (pattern structure, operators, literals) is the frontend's and is covered by C07 / C08, not here",
+                     "a parameter property map is shown to the reference as the literal map of the supplied parameter value (harness/sortdir.go refSexpP); jsonb containment `@>` is modelled only for an object "
+                     "right operand with scalar values (SqlVal.lean jsonContainsFlat, from 8.14.3), the JSON text of a jsonb parameter is read by Driver/C01.lean JsonText",
                      "the comparison of client-visible values (RVal: jsonb scalars decoded, composites as graph entities) in Driver/C01.lean"],
     "assumptions": ["GraphOK (theorems): node ids unique, kind map injective, no property stored as JSON null; decidable (graphOKb), evaluated on every generated graph, "
                     "graphs outside it are still evaluated and counted",
                     "GraphOK2 (stage S2b theorems): GraphOK + relationship ids unique + every relationship kind present in the kind map + no relationship property stored as JSON null; decidable (graphOK2b), evaluated on every generated graph",
-                    "proof only on stages S1, S1c, S2b, S2c and S2n; every other construct is search on small graphs (bounded evaluation, NOT proof)"],
+                    "proof only on stages S1, S1c, S2b, S2c, S2n and S2L; every other construct is search on small graphs (bounded evaluation, NOT proof)"],
 }
 
 MANIFEST = {
     "category": "translation_validation",
-    "technique": "Lean semantics for both languages (Cy.eval, Sql.eval); model translator tr5F proved sound on stages S1, S1c (count over a node pattern), S2b (one directed hop with WHERE), S2c (chains of 2-3 directed hops) and S2n (count over a hop) for all graphs, all queries and both join orders, tied to the real translator by exact "
-                 "AST equality on generated S1 / S1c / S2b / S2c / S2n queries; outside them: evaluation of the REAL emitted statement against the source query on generated small graphs (search)",
+    "technique": "Lean semantics for both languages (Cy.eval, Sql.eval); model translator tr6F proved sound on stages S1, S1c (count over a node pattern), S2b (one directed hop with WHERE), S2c (chains of 2-3 directed hops), S2n (count over a hop) and S2L (hop with LIMIT and no ORDER BY, stated against the base query) for all graphs, all queries and both join orders, tied to the real translator by exact "
+                 "AST equality on generated S1 / S1c / S2b / S2c / S2n / S2L queries; outside them: evaluation of the REAL emitted statement against the source query on generated small graphs (search)",
     "text": "PROVED (Props/C01.lean, axioms propext/Classical.choice/Quot.sound only): tr_sound_S1 — for every graph with unique node ids, injective kind map and no stored JSON null, "
             "every parsed query q and statement (st, ps) with tr km q = some (st, ps): if Sql.eval (encode km g) st ps yields a table then Cy.eval g q yields a result and both show the "
             "client the same rows in the same order; tr_no_runtime_error — that evaluation never ends in an SQL run-time / type / name error (only the model's own `unmodelled` for `->>` of "
@@ -268,15 +283,22 @@ MANIFEST = {
             "relationship under any table alias / variable). Stage S2c (chains): tr_sound_S2c / c01_partial_S3 : forall flipOf flipCh prune, C01_bag_for (tr3F flipOf flipCh prune) — the statement with "
             "frames s0 (the hop frame), s1 [, s2] (each `from s_(i-1) join edge e_i on (s_(i-1).n_i).id = e_i.start_id join node n_(i+1) on ... where [kinds and] e_i.id != (s_(i-1).e_j).id`) "
             "returns a permutation of the Cypher rows. Cypher side proved for chains of ANY length (Proofs/C01ChainCy.lean matchSteps_chain: the reference matcher enumerates exactly the "
-            "extensions by a relationship not used yet), SQL side frame by frame for 2 and 3 hops (Proofs/C01ChainSql.lean frame1 / frame2, C01ChainSound.lean chain_sound); tr3_some; ofCyChain_sound. Stage S1c (count): tr_sound_S1c / count_sound — for every GraphOK graph, every query MATCH (n[:K...]) [WHERE p] RETURN count(n) [AS c] "
+            "extensions by a relationship not used yet; where_chain / clause_chain: the WHERE keeps the matches on which every conjunct is true, conjunct by conjunct through the entity-generic cy_predAt), SQL side frame by frame for 2 and 3 hops (Proofs/C01ChainSql.lean frame1 / frame2 with the conjuncts over the new relationship / node, stepRows_eq: a frame's rows are the extensions extW that pass them; C01ChainSound.lean chainMatchesSql_eq: filtering early in the frames = filtering the WHERE-free enumeration at the end (flatMap_filter_push, okWhereCh_refs), chain_sound); tr3_some; ofCyChain_sound. Stage S1c (count): tr_sound_S1c / count_sound — for every GraphOK graph, every query MATCH (n[:K...]) [WHERE p] RETURN count(n) [AS c] "
             "and both statement shapes (fast path on / off) the SQL row equals the Cypher row (Proofs/C01Count.lean: evalSelect_countA, fastStmt_eval, frameStmt_eval, cy_side_count — "
             "implicit grouping with no key is one group, count(n) counts the non-null bindings); c01_partial_S4 : forall flipOf flipCh fast prune, C01_bag_for (tr4F flipOf flipCh fast prune); "
             "tr4_some; ofCyCount1_sound. Stage S2n (count over a hop): tr_sound_S2n / count_hop_sound (Proofs/C01CountHop.lean: the S2b frame lemmas + evalSelect_countA over the pruned "
-            "frame; cy_count_eval — RETURN count(v) over any list of rows binding v) ; c01_partial_S5 : forall flipOf flipCh flipN fast prune, C01_bag_for (tr5F ...); tr5_some; ofCyCount2_sound. FRAGMENT PROVED = " + FRAGMENT_PROVED + ". NOT PROVED: C01_full (the statement for a total "
-            "translator) stays a visible Prop; the design's S1 remainder (DISTINCT, ORDER BY on properties, ordered and string-function property comparisons), the rest of S2 (undirected hops, chains with WHERE or of more than three hops, "
-            "WHERE conjuncts that read two variables, ORDER BY over a hop) and S3..S5 are SEARCHED only. "
+            "frame; cy_count_eval — RETURN count(v) over any list of rows binding v) ; c01_partial_S5 : forall flipOf flipCh flipN fast prune, C01_bag_for (tr5F ...); tr5_some; ofCyCount2_sound. Stage S2L (hop + LIMIT k, no ORDER BY / SKIP; "
+            "tr6F = S2L where the query has that reading, else tr5F; tr6_some; ofCyLimit2_sound): C01_bag_for is NOT claimed for tr6F, because the reference semantics refuses such a query whenever the "
+            "LIMIT has to choose (limit_refused_iff: Cy.eval = error `nondeterministic-limit-inside-ties` iff 0 < k < number of base rows, else the first k = all / none of the base rows). "
+            "tr_sound_S2L — for every GraphOK2 graph, both join orders, frame pruned or complete, LIMIT pushed into the frame or not: if the statement yields a table t then the BASE query has a result r, "
+            "the client rows of t are a sub-bag of the rows of r (SubBag xs ys := exists rest, (xs ++ rest) ~ ys), t has exactly min(k, |r|) rows, and the rows of t are the first k of "
+            "hopM g base flip mapped to client rows — hopM (Proofs/C01S2Sound.lean) is the frame's scan order for the join order, a permutation of the base matches that does not depend on pruning or on the pushdown; "
+            "tr_noerr_S2L (never an SQL run-time error); tr_sound_S2L_forced (when Cy.eval of the LIMIT query itself is defined, bag agreement with it). Proofs/C01S2Sql.lean hop_frame_lim / "
+            "eval_cteStmt_lim evaluate the frame and the statement with their LIMIT literals; Proofs/C01Limit.lean cy_side2_lim, s2l_sound. FRAGMENT PROVED = " + FRAGMENT_PROVED + ". NOT PROVED: C01_full (the statement for a total "
+            "translator) stays a visible Prop; the design's S1 remainder (DISTINCT, ORDER BY on properties, ordered and string-function property comparisons), the rest of S2 (undirected hops, chains of more than three hops, "
+            "WHERE conjuncts that read two variables, ORDER BY / SKIP over a hop, LIMIT over chains or counts) and S3..S5 are SEARCHED only. "
             "FRAGMENT SEARCHED = " + FRAGMENT_SEARCHED + ". Confirmed deviations of the unchanged translator from openCypher (OPTIONAL MATCH as first clause, jsonb ordering under ORDER BY, "
             "self loops under undirected patterns, missing relationship uniqueness across pattern parts, text-form comparisons, SQL run-time cast errors, ...) are findings in "
             "known_findings.json, each with a replay in corpus/C01.",
-    "note": "No PostgreSQL server: SQL meaning is a trusted Lean transcription of the documentation. Bounded evaluation on small graphs is search, not proof; the proof covers stages S1, S1c, S2b, S2c and S2n only.",
+    "note": "No PostgreSQL server: SQL meaning is a trusted Lean transcription of the documentation. Bounded evaluation on small graphs is search, not proof; the proof covers stages S1, S1c, S2b, S2c, S2n and S2L only (S2L against the base query's rows, see text).",
 }
